@@ -17,6 +17,16 @@ PROPS = {
         ],
         'not_decided': [],
     },
+    'C05': {
+        'level': 'proof',
+        'explanation': 'WhitespaceDelimitedArgumentReader::next is verified (body verbatim after R2/R7/R3) to return exactly what the reference tokenizer tok() of the statement prescribes on the abstract stream pending++unread, for every sequence of read() results (chunk independence is part of the postcondition), to leave the rest of the stream intact, to err only on an unterminated quote or a failed read, and to terminate; ByteDelimitedArgumentReader::next likewise against btoks() (split at the delimiter only, empty fields skipped).',
+        'assumptions': [
+            'read(2) contract for Read::read behind the EINTR retry loop (R7) and BufRead::read_until (bytes through the first delimiter, chunk independent)',
+            'String::from_utf8_lossy is the identity on valid UTF-8 (input that is not valid UTF-8 is altered: finding D6, reported under C07 where byte-exactness is claimed)',
+            'parse_delimiter / delimiter selection in normalize_options: see unit xopts',
+        ],
+        'not_decided': ['the 4096-byte buffer edge and multi-byte characters need no special treatment: the proof is over bytes and arbitrary chunk sizes'],
+    },
 }
 for k in PROPS.values():
     k.setdefault('trusted', [])
